@@ -1,4 +1,6 @@
 """C16 Loops and conditionals render exactly what their unrolling renders (control skeleton)."""
+import re
+
 from sa import rules as R
 from sa import discharge as D
 from sa.prog import P, Callee, op_place, op_const, const_str, const_int
@@ -175,7 +177,14 @@ def loop_element(prog, chk):
         v = _variant_of_arg(b, t["args"][0])
         kinds.setdefault(v, []).append((bb, bb in blocks, c.path.split("::")[-1]))
     rep = kinds.get("Repeat", [])
-    chk.ob(
+    recognisable = bool(rep) and bool(kinds.get("While")) and bool(kinds.get("Until"))
+    if not recognisable:
+        # the evaluations of count / while / until are told apart by the LoopType variant their operand comes from:
+        # with the variants renamed, the tests moved into methods of the enum or the operands carried in a struct the
+        # skeleton cannot be read off the control-flow graph
+        chk.undecided("A13.loop-skeleton", "LoopElement", where, f"the evaluations of count / while / until are not recognisable in LoopElement::generate_events (operand kinds found: {sorted(str(k) for k in kinds)}): the order of tests and body is not decided")
+    if recognisable:
+      chk.ob(
         bool(rep) and all(not inl for (_, inl, _) in rep),
         "A13.loop-skeleton",
         "LoopElement:count-once",
@@ -194,7 +203,8 @@ def loop_element(prog, chk):
         if edges:
             tt, ft = edges
             ok = ft not in blocks and _reaches_before(b, wb, bb_body, blocks, h) and not _reaches_before(b, bb_body, wb, blocks, h)
-    chk.ob(ok, "A13.loop-skeleton", "LoopElement:while", where, "`while` is tested before the body in every pass; a zero value leaves the loop", "`while` is not tested before each pass, or its false edge does not leave the loop")
+    if recognisable:
+      chk.ob(ok, "A13.loop-skeleton", "LoopElement:while", where, "`while` is tested before the body in every pass; a zero value leaves the loop", "`while` is not tested before each pass, or its false edge does not leave the loop")
     # (c) until: after the body, true edge leaves
     un = [(bb, t) for (bb, t, c) in evals if _variant_of_arg(b, t["args"][0]) == "Until" and c.path.endswith("eval_condition")]
     ok = False
@@ -204,9 +214,11 @@ def loop_element(prog, chk):
         if edges:
             tt, ft = edges
             ok = tt not in blocks and b.dominates(bb_body, ub)
-    chk.ob(ok, "A13.loop-skeleton", "LoopElement:until", where, "`until` is tested after the body (at least one pass); a non-zero value leaves the loop", "`until` is not tested after the body, or its true edge does not leave the loop")
+    if recognisable:
+      chk.ob(ok, "A13.loop-skeleton", "LoopElement:until", where, "`until` is tested after the body (at least one pass); a non-zero value leaves the loop", "`until` is not tested after the body, or its true edge does not leave the loop")
     # (d) count test at the top
     ok = False
+    found_cmp = False
     for x in sorted(blocks):
         t = b.term(x)
         if t["k"] != "switch":
@@ -227,7 +239,12 @@ def loop_element(prog, chk):
                 op = o[1]["op"] if is_counter(sides[0]) else {"Ge": "Le", "Le": "Ge", "Gt": "Lt", "Lt": "Gt"}.get(o[1]["op"], o[1]["op"])
                 leave = tt if op in ("Ge", "Gt", "Eq") else ft
                 ok = leave not in blocks and _reaches_before(b, x, bb_body, blocks, h) and op == "Ge"
-    chk.ob(ok, "A13.loop-skeleton", "LoopElement:count-test", where, "`iteration >= count` is tested at the top of each pass and leaves the loop", "the count test is missing, not `iteration >= count`, or does not precede the body")
+                found_cmp = True
+    if not found_cmp:
+        if recognisable:
+            chk.undecided("A13.loop-skeleton", "LoopElement:count-test", where, "no comparison of a pass counter with a loop-invariant count found in the loop (the test may be phrased as a flag, a range, a method): not decided")
+    else:
+      chk.ob(ok, "A13.loop-skeleton", "LoopElement:count-test", where, "`iteration >= count` is tested at the top of each pass and leaves the loop", "the count test is missing, not `iteration >= count`, or does not precede the body")
     # (e)/(f) loop variable bound before the body, advanced after it
     sets = [(bb, t) for (bb, t, c) in b.call_sites(R.path_is(SETVAR)) if bb in blocks]
     chk.ob(bool(sets) and all(_reaches_before(b, bb, bb_body, blocks, h) for (bb, _) in sets), "A13.loop-skeleton", "LoopElement:bind-before-body", where, "the loop variable is bound before the body of each pass", "the loop variable is not bound before the body")
@@ -309,7 +326,11 @@ def _body_args_and_order(prog, chk, b, bb_body, t_body, blocks, h, who):
                 # that local must come from SvgElement::inner_events and not be modified in the loop
                 defs = b.defs_of(l)
                 src_ok = all(x[0] not in blocks for x in defs) and any(_from_inner_events(b, x) for x in defs)
-    chk.ob(src_ok, "A13.loop-skeleton", f"{who}:body-events", where, "each pass processes a clone of the element's stored inner events (taken once, never modified in the loop)", "the body events processed per pass are not the element's unmodified inner events")
+    if not src_ok and o[0] != "call":
+        # the events handed to process_events cannot be traced (a struct field, a helper's parameter): no verdict
+        chk.undecided("A13.loop-skeleton", f"{who}:body-events", where, "the events processed per pass cannot be traced to SvgElement::inner_events()")
+    else:
+      chk.ob(src_ok, "A13.loop-skeleton", f"{who}:body-events", where, "each pass processes a clone of the element's stored inner events (taken once, never modified in the loop)", "the body events processed per pass are not the element's unmodified inner events")
     ext = [(bb, t) for (bb, t, c) in b.call_sites(R.path_is("svgdx::events::OutputList::extend")) if bb in blocks]
     ok = bool(ext) and all(b.dominates(bb_body, bb) for (bb, _) in ext) and _passes_on_ok(b, bb_body, t_body, [bb for (bb, _) in ext], blocks, h)
     chk.ob(ok, "A13.loop-skeleton", f"{who}:append-in-order", where, "the output of every pass is appended (OutputList::extend) before the next pass", "a pass can complete without its output being appended")
@@ -520,6 +541,15 @@ def loop_var_value_exact(prog, chk):
             if cal.decl_path == "std::string::ToString::to_string":
                 src = R.origin_local(b, o[2]["args"][0])
                 ok = src is not None and (b.local_ty(src) or "").strip() == "f64"
+                # ... or the f64 lives in a field: the instantiation says what is rendered
+                sty = (cal.self_ty or "") + " " + " ".join(cal.targs or []) + " " + (cal.inst or "")
+                if not ok and re.search(r"(^|[ <])f64([ >]|$)", sty) and "f32" not in sty:
+                    ok = True
+        if not ok and not (o[0] == "call" and "fn" in o[2] and (Callee(o[2]["fn"]).path.split("::")[-1] in ("fstr", "format", "to_string") or "fmt" in Callee(o[2]["fn"]).path)):
+            # the value handed to set_var cannot be traced to the call that renders it (it travels through a struct
+            # field, a helper's parameter ...): no verdict on how it was rendered
+            chk.undecided("A13.loop-var-exact", f"LoopElement:set_var#{n}", b.where(bb, t.get("line")), f"the value bound to the loop variable cannot be traced to its rendering ({why})")
+            continue
         chk.ob(ok, "A13.loop-var-exact", f"LoopElement:set_var#{n}", b.where(bb, t.get("line")), "the loop variable is set to to_string() of the f64 accumulator", f"the loop variable is not the accumulator's own rendering (it comes from {why}): with a step such as 0.0625 or 1e-5 the variable differs from start + k*step, so the loop no longer renders what its unrolling renders")
     chk.floor("A13.loop-var-exact", n, 1, "set_var in LoopElement")
 
